@@ -156,6 +156,10 @@ func (s *XModel) UndoTx(tx *pb.Transaction, batch kvdb.Batch) error {
 			delKey := append([]byte(pb.ExtUtxoTablePrefix), bucketAndKey...)
 			batch.Delete(delKey)
 			s.logger.Trace("    undo xmodel del", "delkey", string(delKey))
+			if isDelFlag(txOut.Value) { //current version is del of a never-written key
+				gcKey := append([]byte(pb.ExtUtxoDelTablePrefix), bucketAndKey...)
+				batch.Delete(gcKey) //remove the del marker from gc table
+			}
 			s.batchCache.Store(string(bucketAndKey), "")
 		} else {
 			verData, err := s.fetchVersionedData(txOut.Bucket, previousVersion)
